@@ -179,8 +179,9 @@ func c14Check(c C14Case, rec *evid.Rec) error {
 		}
 		// the documented nested use: a Focus started from inside the visit of another Focus (its Progress already
 		// has a path) reports the whole path from the root, and reaches the same node
-		if len(segs) >= 2 {
-			k := 1 + (i+len(segs))%(len(segs)-1)
+		if len(segs) >= 1 {
+			// k == len(segs): the nested Focus has the empty path (it addresses the node of the outer visit itself)
+			k := 1 + (i+len(segs))%len(segs)
 			prefix, suffix := mkPath(segs[:k]), mkPath(segs[k:])
 			var inner datamodel.Node
 			innerPath := ""
@@ -355,6 +356,10 @@ func c14StrCheck(c C14StrCase, rec *evid.Rec) error {
 		j := p.Join(mkPath([]string{a, b}))
 		if j.Len() != len(segs)+2 || j.Truncate(len(segs)).String() != str || pa.Last().String() != a {
 			return fmt.Errorf("Join/Truncate disagree: %q", j.String())
+		}
+		// the empty path is the neutral element of Join, on either side
+		if e := datamodel.NewPath(nil); p.Join(e).Len() != len(segs) || e.Join(p).Len() != len(segs) || p.Join(e).String() != str || e.Join(p).String() != str {
+			return fmt.Errorf("Join with the empty path: %q.Join(\"\") = %q, \"\".Join(%q) = %q", str, p.Join(e).String(), str, e.Join(p).String())
 		}
 		if len(segs) > 0 {
 			first, rest := p.Shift()
